@@ -261,6 +261,8 @@ class World(object):
         elif o == "Pop":
             ch = P.children.pop(op["i"] - 1)
             self.held.add(self.ids[id(ch)])
+        elif o == "DelAt":
+            del P.children[op["i"] - 1]
         elif o == "DelName":
             delattr(P, attr)
         elif o == "DelIdx":
@@ -390,7 +392,7 @@ ACTION_OPS = {
     "SetName": ("SetName", ["p", "n", "v"]), "SetIdx": ("SetIdx", ["p", "n", "i", "v"]),
     "SetObjL": ("SetObj", ["p", "n", "c"]), "SetAtL": ("SetAt", ["p", "i", "v"]),
     "AddNewL": ("AddNew", ["p", "n"]), "AddObj": ("AddObj", ["p", "c"]), "Reparent": ("Reparent", ["p", "c"]),
-    "InsertL": ("Insert", ["p", "i", "c"]), "RemoveL": ("Remove", ["p", "c"]), "PopL": ("Pop", ["p", "i"]),
+    "InsertL": ("Insert", ["p", "i", "c"]), "RemoveL": ("Remove", ["p", "c"]), "PopL": ("Pop", ["p", "i"]), "DelAtL": ("DelAt", ["p", "i"]),
     "DelName": ("DelName", ["p", "n"]), "DelIdx": ("DelIdx", ["p", "n", "i"]),
     "CopyFromL": ("CopyFrom", ["p", "n", "q"]), "NewFreeL": ("NewFree", ["n", "v", "l"]), "ForgetL": ("Forget", ["c"]),
     "AdoptL": ("Adopt", ["p", "q"]),
@@ -487,6 +489,7 @@ def alphabet(names, objs, vals, maxkids):
         ops.append({"op": "Adopt", "p": p, "q": p})
         for i in range(1, maxkids + 2):
             ops.append({"op": "Pop", "p": p, "i": i})
+            ops.append({"op": "DelAt", "p": p, "i": i})
             ops.append({"op": "SetAt", "p": p, "i": i, "v": vals[-1]})
         for c in range(1, objs + 1):
             ops.append({"op": "AddObj", "p": p, "c": c})
@@ -655,7 +658,7 @@ def signature(e, clause):
         if row:
             sig["c_name_ok"] = row[0][1] in NAMES
             sig["c_level_same"] = row[0][3] == 1
-    if op["op"] in ("SetAt", "Pop", "Insert") and p:
+    if op["op"] in ("SetAt", "Pop", "DelAt", "Insert") and p:
         sig["i_in_range"] = op["i"] <= len(pre["kids"][p - 1])
     return sig
 
